@@ -4,7 +4,7 @@
    no dead phase, the discipline of the single alarm slot, and monotone progress. *)
 From Coq Require Import ZArith List Bool.
 From F3 Require Import GoInt QuorumGen Instance InstanceOrder InstanceVotes InstanceTimers.
-From F3 Require InstanceDecide InstanceNoPanic Refine RefineNet HappyNet HappyLive.
+From F3 Require InstanceDecide InstanceNoPanic Refine RefineNet HappyNet HappyLive HappyTimed.
 Import ListNotations.
 Open Scope Z_scope.
 
@@ -77,3 +77,20 @@ Theorem C06_timely_faultfree_terminates : forall c honest input v,
     i_phase (RefineNet.n_inst n k) = TERMINATED /\ exists j, i_term (RefineNet.n_inst n k) = Some j /\ j_value j = v.
 Proof. exact HappyLive.happy_all_decide. Qed.
 Print Assumptions C06_timely_faultfree_terminates.
+
+(* the same with synchrony as a time bound: member k starts at st k and every delivery to k happens at a clock reading in
+   [st k, st k + B), B = min(QUALITY timeout, round-0 phase timeout) *)
+Theorem C06_timely_faultfree_terminates_timed : forall c honest input v,
+  InstanceNoPanic.committee_wf c -> c_total c <= 65535 -> 0 <= c_rebro_round c -> (2 <= length v)%nat ->
+  (forall k, honest k = true -> input k = v) ->
+  forall (st : Z -> Z) hs, (forall k, RefineNet.member c honest k <-> In k hs) -> NoDup hs ->
+  isStrongQuorum (InstanceDecide.sum_power c hs) (c_total c) = true ->
+  forall acts, RefineNet.all_ok c honest (RefineNet.net0 input) acts -> HappyTimed.all_timed c st acts ->
+  let n := RefineNet.nrun c (RefineNet.net0 input) acts in
+  (forall k, RefineNet.member c honest k -> i_phase (RefineNet.n_inst n k) <> INITIAL) ->
+  (forall k s p, RefineNet.member c honest k -> RefineNet.member c honest s -> HappyLive.four p ->
+     In (Refine.voteS s 0 p v) (RefineNet.n_votes n) -> HappyLive.delivered acts k s p) ->
+  forall k, RefineNet.member c honest k ->
+    i_phase (RefineNet.n_inst n k) = TERMINATED /\ exists j, i_term (RefineNet.n_inst n k) = Some j /\ j_value j = v.
+Proof. exact HappyTimed.timed_all_decide. Qed.
+Print Assumptions C06_timely_faultfree_terminates_timed.
